@@ -266,6 +266,36 @@ Theorem C03_sequence_laws : forall st s m,
 Proof. exact sequence_laws. Qed.
 Print Assumptions C03_sequence_laws.
 
+(* the methods AgentSet inherits from collections.abc.MutableSet / Sequence (they run on the
+   methods above): pop takes the FIRST member (KeyError on an empty set), clear empties,
+   reversed is the reversed list, index is the position of the agent (ValueError when absent),
+   count is 0 or 1 *)
+Theorem C03_inherited_methods : forall st s m,
+  members st s = Some m ->
+  (m = [] -> step st (Pop s) = (st, RErr E_KEY)) /\
+  (forall x r, m = x :: r -> NoDup m -> step st (Pop s) = (store st s r, ROk [x])) /\
+  step st (Clear s) = (store st s [], ROk []) /\
+  step st (Reversed s) = (st, ROk (rev m)) /\
+  (forall a ag, assoc a (st_tbl st) = Some ag ->
+    (In a m -> exists j, step st (IndexOf s a) = (st, ROk [j]) /\ 0 <= j < zlen m /\
+                        nth (Z.to_nat j) m 0 = a /\ ~ In a (firstn (Z.to_nat j) m)) /\
+    (~ In a m -> step st (IndexOf s a) = (st, RErr E_VALUE)) /\
+    (NoDup m -> step st (Count s a) = (st, ROk [if memb Z.eqb a m then 1 else 0]))).
+Proof. exact inherited_methods. Qed.
+Print Assumptions C03_inherited_methods.
+
+Example C03_inherited_methods_example :
+  members ex_state 0 = Some [3; 1; 2] /\ NoDup [3; 1; 2] /\
+  snd (step ex_state (Pop 0)) = ROk [3] /\ members (fst (step ex_state (Pop 0))) 0 = Some [1; 2] /\
+  members (fst (step ex_state (Clear 0))) 0 = Some [] /\
+  snd (step (fst (step ex_state (Clear 0))) (Pop 0)) = RErr E_KEY /\
+  snd (step ex_state (IndexOf 0 2)) = ROk [2] /\ snd (step ex_state (IndexOf 0 4)) = RErr E_VALUE /\
+  snd (step ex_state (Count 0 4)) = ROk [0] /\ snd (step ex_state (Reversed 0)) = ROk [2; 1; 3].
+Proof.
+  split; [reflexivity|]. split; [repeat constructor; simpl; intuition discriminate|].
+  vm_compute. repeat split.
+Qed.
+
 (* AgentSet(agents) keeps the first occurrence of each agent *)
 Theorem C03_constructor_dedups : forall l,
   NoDup (new_set l) /\ (forall a, In a (new_set l) <-> In a l).
@@ -301,6 +331,29 @@ Theorem C03_inplace_eq_copy : forall st s r d m x,
   snd (step st (mk_op s r true d)) = ROk [1] /\ snd (step st (mk_op s r false d)) = ROk [0].
 Proof. exact inplace_eq_copy. Qed.
 Print Assumptions C03_inplace_eq_copy.
+
+(* Sequences of operations on the same set: s.op1(inplace=True); s.op2(inplace=True); ... ends
+   with the same members as  x = x.op1(); x = x.op2(); ...  on a copy x of s, for EVERY list of
+   select/sort/shuffle operations, including the ones that raise on the way; neither run touches
+   any other set of its pool, and both leave the attributes alone. *)
+Theorem C03_inplace_sequence_eq_copy_sequence : forall rs st1 st2 s d,
+  valid_slot d = true -> members st1 s = members st2 d -> st_tbl st1 = st_tbl st2 ->
+  members (run_inplace st1 s d rs) s = members (run_copy st2 d rs) d /\
+  st_tbl (run_inplace st1 s d rs) = st_tbl (run_copy st2 d rs) /\
+  (forall i, i <> s -> members (run_inplace st1 s d rs) i = members st1 i) /\
+  (forall i, i <> d -> members (run_copy st2 d rs) i = members st2 i).
+Proof. exact inplace_sequence_eq_copy_sequence. Qed.
+Print Assumptions C03_inplace_sequence_eq_copy_sequence.
+
+Example C03_inplace_sequence_example :
+  let copied := fst (step ex_state (Select 0 None AInf None false 1)) in
+  (* sort; a select whose filter raises (agent 2 has no a1); a legal shuffle; half of 3 = 1; an illegal outcome *)
+  let rs := [RSort (KAttr 0) true; RSelect (Some (PAttrLe 1 3)) AInf None; RShuffle [1; 2; 3];
+             RSelect None (AFrac 1 1) None; RShuffle [2; 1]] in
+  valid_slot 1 = true /\ members copied 0 = members copied 1 /\
+  members (run_inplace copied 0 1 rs) 0 = Some [1] /\ members (run_copy copied 1 rs) 1 = Some [1] /\
+  members (run_copy copied 1 rs) 0 = Some [3; 1; 2].
+Proof. vm_compute. repeat split. Qed.
 
 (* Sequences: a history in which no operation targets slot i (copying forms into other slots,
    in-place forms on other sets, any query, set, groupby) leaves set i exactly as it was. *)
